@@ -132,6 +132,11 @@ class PermutationReciprocalTransformer(BaseReciprocalTransformer):
         for u in perm_keys:
             perm[u] = lin[perm[u]]
         self.permutation_ = perm
+        # the index built by _find_closest belongs to the previous permutation
+        if hasattr(self, "knn_"):
+            del self.knn_
+        if hasattr(self, "knn_perm_"):
+            del self.knn_perm_
         return self
 
     def _check_is_fitted(self):
